@@ -4,6 +4,7 @@ import (
 	"bytes"
 	"fmt"
 	"strings"
+	"sync/atomic"
 	"time"
 
 	"verifsim/simnet"
@@ -208,6 +209,10 @@ func genHTTPFaultSpec(r *R, faults bool) httpFaultSpec {
 	}
 	if faults {
 		sp.ConnFaults = []string{"", "", "", "refuse-some", "dial-timeout-some", "partition-short", "partition-long"}[f.Draw(7)]
+		if sp.Gun == "connect" && f.Draw(3) == 0 {
+			// the proxy misbehaves while the tunnel is being set up (every third CONNECT)
+			sp.ConnFaults = []string{"connect-502-some", "connect-extra-data-some", "connect-close-some", "connect-garbage-some", "connect-hang-some"}[f.Draw(5)]
+		}
 	}
 	return sp
 }
@@ -253,9 +258,10 @@ func runHTTPFaults(r *R, sp httpFaultSpec) *httpFaultOutcome {
 	ammo := map[string]interface{}{"type": typ, "file": "/ammo/ammo.txt", "passes": sp.Passes}
 	target := "10.0.0.7:8080"
 	gun := map[string]interface{}{"type": sp.Gun, "target": target, "disable-keep-alives": !sp.KeepAlive, "response-header-timeout": "2s",
-		"dial": map[string]interface{}{"timeout": "1s"},
+		"dial":     map[string]interface{}{"timeout": "1s"},
 		"auto-tag": map[string]interface{}{"enabled": sp.AutoTag, "uri-elements": sp.URIElems, "no-tag-only": sp.NoTagOnly}}
 	var peer *rawPeer
+	var proxyFaults int32
 	arrivals := make([]int, sp.Entries)
 	out.Res = runHTTPPool(r, httpPoolSpec{Ammo: ammo, Gun: gun, Instances: sp.Inst, Tokens: out.Fired + 2, Files: map[string][]byte{"/ammo/ammo.txt": []byte(b.String())}, Horizon: 2 * time.Hour},
 		func(nw *simnet.Net) {
@@ -285,6 +291,21 @@ func runHTTPFaults(r *R, sp httpFaultSpec) *httpFaultOutcome {
 		func(nw *simnet.Net) {
 			peer = startRawPeer(nw, target, func(n int, s *seenReq) rawAction {
 				if s.Method == "CONNECT" {
+					if s.N%3 == 1 && strings.HasPrefix(sp.ConnFaults, "connect-") {
+						atomic.AddInt32(&proxyFaults, 1) // nosim
+						switch sp.ConnFaults {
+						case "connect-502-some":
+							return rawAction{Bytes: []byte("HTTP/1.1 502 Bad Gateway\r\nContent-Length: 3\r\n\r\nbad"), Then: "close"}
+						case "connect-extra-data-some":
+							return rawAction{Bytes: []byte("HTTP/1.1 200 Connection established\r\n\r\nSSH-2.0-OpenSSH_9.2\r\n"), Then: "hang"}
+						case "connect-close-some":
+							return rawAction{Then: "close"}
+						case "connect-garbage-some":
+							return rawAction{Bytes: []byte("\x16\x03\x01\x00\x02\x02\x28 not http at all\r\n\r\n"), Then: "close"}
+						case "connect-hang-some":
+							return rawAction{Then: "hang"}
+						}
+					}
 					return rawAction{Bytes: []byte("HTTP/1.1 200 Connection established\r\n\r\n")}
 				}
 				i := markerOf(s.URI)
@@ -314,6 +335,10 @@ func runHTTPFaults(r *R, sp httpFaultSpec) *httpFaultOutcome {
 				r.Fault("net:"+k, true)
 			}
 		}
+	}
+	for i := 0; i < int(proxyFaults); i++ {
+		r.Fault("proxy:"+sp.ConnFaults, true)
+		out.ConnFlt++
 	}
 	for _, bh := range sp.Behaviours {
 		if bh.Kind != "status" {
